@@ -15,7 +15,7 @@
    Immutability additionally excludes K_alias_swap (carry-in --force with content that differs from
    the stored object only in CR/LF bytes: P2). *)
 From Coq Require Import List Bool NArith.
-From XV Require Import Base.Amap Base.Bytes Repo.Model Repo.Proofs Repo.Inv Repo.Restore Repo.Stamps Repo.Main.
+From XV Require Import Base.Amap Base.Bytes Repo.Model Repo.Proofs Repo.Inv Repo.Restore Repo.Stamps Repo.Main Repo.Fix Repo.FixProofs.
 Import ListNotations.
 
 Definition K_relink (r : repo) (h : list item) : bool := mon_run relink r h.
@@ -169,6 +169,122 @@ Proof.
   destruct H as (i & n & E & _); [vm_compute; reflexivity|vm_compute; reflexivity|discriminate E].
 Qed.
 
+(* ==== the code with the repairs of P41 (no link is renamed into the cache) and P44 / P42 behind switches ============
+   Repo/Fix.v is the model with a switch per repair ([fixes]; the check derives the switches from the binary on
+   every run).  With both switches off it IS the model above (model_with_switches_off).  For EVERY value of the
+   switches the theorems hold outside the class
+     K_x fx h = K_relink (only while P41 is not repaired)  or  a symbolic link gone stale inside a forced carry-in
+   and K_relink is EMPTY once P41 is repaired (relink_class_empty_when_fixed): what is left is [stale_x], a corner
+   of P2 (the object a symbolic link points to is swapped for a CR/LF alias by an earlier target of the same
+   carry-in --force --text-or-binary, after the link's address was computed: stale_link_witness). *)
+Theorem model_with_switches_off r it : do_item_x as_is r it = do_item r it.
+Proof. exact (do_item_x_as_is r it). Qed.
+
+Theorem cas_invariant_x fx a m t h b c :
+  K_x fx (init_repo a m t) h = false ->
+  obj_read (fs (run_items_x fx (init_repo a m t) h)) b = Some c -> fits (a_digest b) c.
+Proof. exact (fun G => cas_x fx _ b c (reachable_x_run fx a m t h G)). Qed.
+
+Theorem objects_readonly_files_x fx a m t h b e :
+  K_x fx (init_repo a m t) h = false ->
+  oget (fs (run_items_x fx (init_repo a m t) h)) b = Some e ->
+  exists i n, e = EFile i /\ iget (fs (run_items_x fx (init_repo a m t) h)) i = Some n /\ i_w n = false /\
+              (forall b', oget (fs (run_items_x fx (init_repo a m t) h)) b' = Some (EFile i) -> b' = b).
+Proof. exact (fun G => objects_plain_x fx _ b e (reachable_x_run fx a m t h G)). Qed.
+
+Theorem directories_readonly_x fx a m t h b :
+  K_x fx (init_repo a m t) h = false -> panics_x fx (init_repo a m t) h = false ->
+  oget (fs (run_items_x fx (init_repo a m t) h)) b <> None ->
+  dget (fs (run_items_x fx (init_repo a m t) h)) (a_digest b) = Some false.
+Proof. exact (readonly_x fx a m t h b). Qed.
+
+Theorem objects_immutable_x fx r it b c c' :
+  reachable_x fx r -> K_item_x fx r it = false -> mon_item_x fx alias_swap r it = false ->
+  obj_read (fs r) b = Some c -> obj_read (fs (fst (do_item_x fx r it))) b = Some c' -> c = c'.
+Proof. exact (immutable_x fx r it b c c'). Qed.
+
+Theorem cache_monotone_x fx r it b e :
+  reachable_x fx r -> K_item_x fx r it = false -> unforced it = true ->
+  oget (fs r) b = Some e ->
+  oget (fs (fst (do_item_x fx r it))) b = Some e /\ obj_read (fs (fst (do_item_x fx r it))) b = obj_read (fs r) b.
+Proof. exact (monotone_x fx r it b e). Qed.
+
+(* once P41 is repaired no history is in the class relink ... *)
+Theorem relink_class_empty_when_fixed fx : fixed_P41 fx = true -> forall r h, mon_run_x fx (relink_x fx) r h = false.
+Proof. exact (FixProofs.relink_class_empty_when_fixed fx). Qed.
+
+(* ... so the content-address invariant holds without it: the full statement of the relink findings *)
+Definition C02_cas_full_x (fx : fixes) : Prop := forall a m t h b c,
+  mon_run_x fx stale_x (init_repo a m t) h = false ->
+  obj_read (fs (run_items_x fx (init_repo a m t) h)) b = Some c -> fits (a_digest b) c.
+Definition C02_readonly_full_x (fx : fixes) : Prop := forall a m t h b e,
+  mon_run_x fx stale_x (init_repo a m t) h = false ->
+  oget (fs (run_items_x fx (init_repo a m t) h)) b = Some e ->
+  exists i n, e = EFile i /\ iget (fs (run_items_x fx (init_repo a m t) h)) i = Some n /\ i_w n = false /\
+              (forall b', oget (fs (run_items_x fx (init_repo a m t) h)) b' = Some (EFile i) -> b' = b).
+
+Theorem C02_cas_full_fixed fx : fixed_P41 fx = true -> C02_cas_full_x fx.
+Proof. exact (fun H a m t h b c G => cas_x fx _ b c (reachable_x_run fx a m t h (eq_trans (K_x_fixed fx _ h H) G))). Qed.
+
+Theorem C02_readonly_full_fixed fx : fixed_P41 fx = true -> C02_readonly_full_x fx.
+Proof. exact (fun H a m t h b e G => objects_plain_x fx _ b e (reachable_x_run fx a m t h (eq_trans (K_x_fixed fx _ h H) G))). Qed.
+
+(* the stale-link class is a corner of P2: an item that swaps no object for a CR/LF alias (and, while P41 is not
+   repaired, renames no link) has no stale link *)
+Theorem stale_link_class_needs_alias_swap fx r it :
+  reachable_x fx r -> mon_item_x fx (relink_x fx) r it = false -> mon_item_x fx alias_swap r it = false ->
+  mon_item_x fx stale_x r it = false.
+Proof. exact (fun Hr => stale_needs_alias_swap fx r it (proj1 (reachable_x_INV fx r Hr)) (proj2 (reachable_x_INV fx r Hr))). Qed.
+
+Check cas_invariant_x : forall fx a m t h b c, K_x fx (init_repo a m t) h = false ->
+  obj_read (fs (run_items_x fx (init_repo a m t) h)) b = Some c -> fits (a_digest b) c.
+Check C02_cas_full_fixed : forall fx, fixed_P41 fx = true -> forall a m t h b c,
+  mon_run_x fx stale_x (init_repo a m t) h = false ->
+  obj_read (fs (run_items_x fx (init_repo a m t) h)) b = Some c -> fits (a_digest b) c.
+
+(* the relink witnesses in the repaired model: outside every class, no panic, both objects regular read-only files
+   with their own inodes, the in-place edit refused *)
+Example relink_witnesses_repaired :
+  K_x all_fixed r0 h_relink = false /\ panics_x all_fixed r0 h_relink = false /\
+  K_x all_fixed r0 h_symlink = false /\ panics_x all_fixed r0 h_symlink = false /\
+  K_x all_fixed r0 h_relink_cas = false /\
+  obj_read (fs (run_items_x all_fixed r0 h_relink_cas)) addr_bin = Some crlf /\
+  (exists i j, oget (fs (run_items_x all_fixed r0 h_relink)) addr_bin = Some (EFile i) /\
+               oget (fs (run_items_x all_fixed r0 h_relink)) (cache_addr a_txt (digest_of B3 Text crlf)) = Some (EFile j) /\ i <> j) /\
+  (exists i, oget (fs (run_items_x all_fixed r0 h_symlink)) addr_bin = Some (EFile i)).
+Proof.
+  vm_compute. repeat split; try reflexivity.
+  - eexists _, _. split; [reflexivity|split; [reflexivity|discriminate]].
+  - eexists. reflexivity.
+Qed.
+(* and in the model of the code as it is the same histories are in the class *)
+Example relink_witnesses_as_is : K_x as_is r0 h_relink = true /\ K_x as_is r0 h_symlink = true.
+Proof. vm_compute. split; reflexivity. Qed.
+
+(* what is left of the class once P41 is repaired (a corner of P2): y.txt holds "a\nb\n" at the text address X;
+   z.txt ("a\r\nb\r\n", recorded with --no-commit: the same text digest) and q.txt (a symbolic link to X) are
+   carried in by ONE carry-in --force --text-or-binary binary.  The address of q.txt is computed from what the link
+   reads then (the LF bytes); z.txt then replaces X by its CR/LF alias; what is copied for q.txt afterwards are the
+   CR/LF bytes: they do not hash to the address.  Without the alias swap (P2) this cannot happen. *)
+Definition y_txt : path := [121; 46; 116; 120; 116]%N.
+Definition z_txt : path := [122; 46; 116; 120; 116]%N.
+Definition q_txt : path := [113; 46; 116; 120; 116]%N.
+Definition t_nc : track_opts := {| t_method := None; t_tob := None; t_no_commit := true; t_force := false |}.
+Definition h_stale : list item :=
+  [UWrite y_txt lf; XTrack t0 [y_txt]; UWrite z_txt crlf; XTrack t_nc [z_txt]; UWrite q_txt lf; XTrack t_sym [q_txt];
+   XCarryIn {| c_tob := Some Binary; c_force := true |} [z_txt; q_txt]].
+Definition C02_cas_unconditional_x (fx : fixes) : Prop := forall a m t h b c,
+  obj_read (fs (run_items_x fx (init_repo a m t) h)) b = Some c -> fits (a_digest b) c.
+Example stale_link_witness : ~ C02_cas_unconditional_x all_fixed.
+Proof.
+  intros H. specialize (H B3 Copy Auto h_stale (cache_addr q_txt (digest_of B3 Binary lf)) crlf).
+  assert (F : fits (a_digest (cache_addr q_txt (digest_of B3 Binary lf))) crlf) by (apply H; vm_compute; reflexivity).
+  destruct F as [F|F]; vm_compute in F; discriminate F.
+Qed.
+Example stale_link_witness_in_class :
+  mon_run_x all_fixed stale_x r0 h_stale = true /\ mon_run_x all_fixed alias_swap r0 h_stale = true /\ panics_x all_fixed r0 h_stale = false.
+Proof. vm_compute. repeat split. Qed.
+
 Print Assumptions cas_invariant.
 Print Assumptions address_fits_content.
 Print Assumptions objects_readonly_files.
@@ -177,3 +293,13 @@ Print Assumptions objects_immutable.
 Print Assumptions cache_monotone.
 Print Assumptions dedup.
 Print Assumptions one_address_same_normal_form.
+Print Assumptions model_with_switches_off.
+Print Assumptions cas_invariant_x.
+Print Assumptions objects_readonly_files_x.
+Print Assumptions directories_readonly_x.
+Print Assumptions objects_immutable_x.
+Print Assumptions cache_monotone_x.
+Print Assumptions relink_class_empty_when_fixed.
+Print Assumptions C02_cas_full_fixed.
+Print Assumptions C02_readonly_full_fixed.
+Print Assumptions stale_link_class_needs_alias_swap.
